@@ -282,7 +282,7 @@ func shortStack(s string) []string {
 }
 
 // panicClass maps a panic message to a classifier (no witness values in it).
-func panicClass(msg string, m modelOut) string {
+func panicClass(msg string, m modelOut, alt *big.Int) string {
 	switch {
 	case strings.Contains(msg, "division by zero") || strings.Contains(msg, "divide by zero"):
 		if m.Target.Sign() == 0 {
@@ -292,7 +292,7 @@ func panicClass(msg string, m modelOut) string {
 	case strings.Contains(msg, "Int64() out of bound"):
 		return "basefee-panic:endblock-telemetry-int64-overflow"
 	case strings.Contains(msg, "NewIntFromBigInt() out of bound"):
-		if m.Defined && m.Next.BitLen() > 256 {
+		if (m.Defined && m.Next.BitLen() > 256) || (alt != nil && alt.BitLen() > 256) {
 			return "basefee-panic:next-base-fee-exceeds-256-bits"
 		}
 		return "basefee-panic:int-out-of-bound"
@@ -311,10 +311,10 @@ type reporter struct {
 	max int
 }
 
-func (rp *reporter) violation(sig, label string, detail any) {
+func (rp *reporter) violation(level, sig, label string, detail any) {
 	rp.mu.Lock()
-	rp.n[sig]++
-	k := rp.n[sig]
+	rp.n[level+"|"+sig]++
+	k := rp.n[level+"|"+sig]
 	rp.mu.Unlock()
 	rp.run.Count("violations_observed["+sig+"]", 1)
 	if k <= rp.max || rp.run.OnlyCase != "" {
@@ -368,6 +368,7 @@ func evalPoint(sh *fnShared, c *vh.Chain, label string, idx int, p fnPoint) {
 
 	key := maxGasClass(p.MaxGas) + "|" + m.Rel + "|" + baseClass(p.Base) + "|" + minRelClass(p.MinGP, m)
 	run.Nontrivial(key)
+	run.Distinct("nontrivial_keys", key)
 	run.Distinct("fn_maxgas_class", maxGasClass(p.MaxGas))
 	run.Count("fn_usage_"+m.Rel, 1)
 	switch m.Rel {
@@ -414,23 +415,30 @@ func evalPoint(sh *fnShared, c *vh.Chain, label string, idx int, p fnPoint) {
 		suffix += ":min-price-clamp"
 	}
 
+	alt := unlimitedReading(p.Base, p.MaxGas, p.Consumed, minFloor) // second admissible reading for MaxGas = 0 only
+	want := m.Next
+
 	// --- CalculateBaseFee ---
 	var got *big.Int
 	calc := guard(func() { got = k.CalculateBaseFee(ctx).BigInt() })
 	calcClass := ""
 	if calc.Panicked {
-		calcClass = panicClass(calc.Msg, m)
+		calcClass = panicClass(calc.Msg, m, alt)
 		run.Count("fn_panic["+calcClass+"]", 1)
-		sh.rep.violation(calcClass, label, wit(map[string]any{"call": "FeeMarketKeeper.CalculateBaseFee", "panic": calc.Msg, "stack": calc.Stack}))
+		sh.rep.violation("function", calcClass, label, wit(map[string]any{"call": "FeeMarketKeeper.CalculateBaseFee", "panic": calc.Msg, "stack": calc.Stack}))
 	} else if !m.Defined {
 		run.Count("fn_zero_target_survived", 1)
 		if got == nil || got.Sign() < 0 || got.Cmp(minFloor) < 0 {
-			sh.rep.violation("basefee-below-floor:zero-gas-target", label, wit(map[string]any{"call": "FeeMarketKeeper.CalculateBaseFee", "observed": fmt.Sprint(got)}))
+			sh.rep.violation("function", "basefee-below-floor:zero-gas-target", label, wit(map[string]any{"call": "FeeMarketKeeper.CalculateBaseFee", "observed": fmt.Sprint(got)}))
 		}
-	} else if got == nil || got.Cmp(m.Next) != 0 {
-		sh.rep.violation("basefee-mismatch:calculate"+suffix, label, wit(map[string]any{"call": "FeeMarketKeeper.CalculateBaseFee", "observed": fmt.Sprint(got)}))
+	} else if got == nil || (got.Cmp(m.Next) != 0 && !(alt != nil && got.Cmp(alt) == 0)) {
+		sh.rep.violation("function", "basefee-mismatch:calculate"+suffix, label, wit(map[string]any{"call": "FeeMarketKeeper.CalculateBaseFee", "observed": fmt.Sprint(got)}))
 	} else {
 		run.Count("fn_calculate_agrees", 1)
+		if alt != nil && got.Cmp(m.Next) != 0 {
+			want = alt // EndBlock must then follow the same reading
+			run.Count("fn_maxgas0_read_as_unlimited", 1)
+		}
 	}
 
 	// --- EndBlock on the same context ---
@@ -438,42 +446,42 @@ func evalPoint(sh *fnShared, c *vh.Chain, label string, idx int, p fnPoint) {
 	var stored feemarkettypes.Params
 	rd := guard(func() { stored = k.GetParams(ctx) })
 	if end.Panicked {
-		cls := panicClass(end.Msg, m)
+		cls := panicClass(end.Msg, m, alt)
 		run.Count("fn_endblock_panic["+cls+"]", 1)
 		if cls != calcClass { // the same failure was already reported for CalculateBaseFee
 			extra := map[string]any{"call": "FeeMarketKeeper.EndBlock", "panic": end.Msg, "stack": end.Stack, "calculate_base_fee_panicked": calc.Panicked}
 			if got != nil {
 				extra["calculate_base_fee_returned"] = got.String()
 			}
-			sh.rep.violation(cls, label, wit(extra))
+			sh.rep.violation("function", cls, label, wit(extra))
 		}
 	}
 	if rd.Panicked {
-		sh.rep.violation("basefee-panic:params-unreadable-after-endblock", label, wit(map[string]any{"panic": rd.Msg, "stack": rd.Stack}))
+		sh.rep.violation("function", "basefee-panic:params-unreadable-after-endblock", label, wit(map[string]any{"panic": rd.Msg, "stack": rd.Stack}))
 		return
 	}
 	telemetryOnly := end.Panicked && strings.Contains(end.Msg, "Int64() out of bound")
 	if m.Defined && (!end.Panicked || telemetryOnly) {
 		// the parameter is written before the telemetry gauge is computed, so it is checked in both cases
-		if stored.BaseFee.IsNil() || stored.BaseFee.BigInt().Cmp(m.Next) != 0 {
-			sh.rep.violation("basefee-mismatch:endblock-stored"+suffix, label, wit(map[string]any{"call": "FeeMarketKeeper.EndBlock", "stored_base_fee": stored.BaseFee.String()}))
+		if stored.BaseFee.IsNil() || stored.BaseFee.BigInt().Cmp(want) != 0 {
+			sh.rep.violation("function", "basefee-mismatch:endblock-stored"+suffix, label, wit(map[string]any{"call": "FeeMarketKeeper.EndBlock", "stored_base_fee": stored.BaseFee.String()}))
 		} else {
 			run.Count("fn_endblock_stored_agrees", 1)
 		}
 		ev, n := feeMarketEvent(ctx.EventManager().ABCIEvents())
 		if n != 1 {
-			sh.rep.violation("basefee-event-count:endblock", label, wit(map[string]any{"fee_market_events": n}))
-		} else if ev != m.Next.String() {
-			sh.rep.violation("basefee-mismatch:endblock-event"+suffix, label, wit(map[string]any{"event_base_fee": ev}))
+			sh.rep.violation("function", "basefee-event-count:endblock", label, wit(map[string]any{"fee_market_events": n}))
+		} else if ev != want.String() {
+			sh.rep.violation("function", "basefee-mismatch:endblock-event"+suffix, label, wit(map[string]any{"event_base_fee": ev}))
 		}
 	}
 	if !end.Panicked && !m.Defined {
 		if stored.BaseFee.IsNil() || stored.BaseFee.IsNegative() || stored.BaseFee.BigInt().Cmp(minFloor) < 0 {
-			sh.rep.violation("basefee-below-floor:zero-gas-target", label, wit(map[string]any{"call": "FeeMarketKeeper.EndBlock", "stored_base_fee": stored.BaseFee.String()}))
+			sh.rep.violation("function", "basefee-below-floor:zero-gas-target", label, wit(map[string]any{"call": "FeeMarketKeeper.EndBlock", "stored_base_fee": stored.BaseFee.String()}))
 		}
 	}
 	if !stored.MinGasPrice.Equal(minDec) {
-		sh.rep.violation("min-gas-price-changed-by-endblock", label, wit(map[string]any{"stored_min_gas_price": stored.MinGasPrice.String()}))
+		sh.rep.violation("function", "min-gas-price-changed-by-endblock", label, wit(map[string]any{"stored_min_gas_price": stored.MinGasPrice.String()}))
 	}
 	if idx < 2 {
 		obs := "panic: " + calc.Msg
